@@ -13,11 +13,19 @@ def nontrivial(case, impl, model, oracle):
 
 
 CHECK, MANIFEST = srvgen.make_check(
-    "C09", "Props/C09.v", ["c09_opt_iff", "c09_validate_opt", "c09_badvers_refuted_prefix"],
+    "C09", "Props/C09.v", ["c09_opt_iff", "c09_validate_opt", "c09_badvers_refuted_prefix",
+                         "c09_opt_reached_is_spec", "c09_opt_iff_spec", "c09_badvers_response",
+                         "c09_answered_response_ends_with_opt", "c09_plain_response_ends_with_opt"],
     srvgen.oracle_c09, gen, nontrivial, srvgen.std_classify,
     ("Coq theorems (no axioms): the response is an EDNS response, with the server's payload size as CLASS, if and only if "
      "processing reached an OPT record of the additional section (a reader-level predicate: question in order, answer/authority "
-     "records delimitable without OPT/TSIG, then an OPT met while scanning delimitable ordinary records) — for every request; OPT "
+     "records delimitable without OPT/TSIG, then an OPT met while scanning delimitable ordinary records) — for every request; "
+     "c09_opt_reached_is_spec proves that predicate equal to its SPEC-LEVEL twin s_opt_reached (Spec/MsgWalkS.v: spec decoders and "
+     "an independent 'delimit a record' only), c09_opt_iff_spec restates the iff with it, and the extracted s_opt_reached is "
+     "evaluated on every implementation response; c09_badvers_response: a well-formed OPT with VERSION <> 0 met before any problem "
+     "gives extended RCODE 16 and no data; at the BYTE level every response of the composition respond_w / respond_plain (Writer "
+     "model of C12 + query model of C05) run with an EDNS size ends with the 11 octets of the OPT record: owner root, TYPE 41, "
+     "CLASS = the payload size, TTL field 0, RDLENGTH 0 (c09_answered_response_ends_with_opt, c09_plain_response_ends_with_opt); OPT "
      "validation gives FORMERR for a non-root owner and BADVERS for a version other than 0 taken from bits 23..16 of the RAW TTL "
      "field (the pinned tree read the clamped Ttl: repaired by a fix: commit, kept as a refuted witness). Owner root, version 0 "
      "and empty RDATA of the emitted OPT are checked on the real octets by the correspondence run."),
